@@ -31,6 +31,25 @@ flow handling
 """
 
 
+# a second bot message in the same turn: when the first `bot say` fails (its output rail failed), the flow falls back
+# to another LLM-generated text - which has to pass the output rails like any other
+V2_MAIN_RETRY = """
+flow main
+  activate handling
+
+flow handling
+  global $user_message
+  user said something
+  $ans = await VerifLookupAction(q=$user_message)
+  $text = ..."Answer the user: {$user_message}"
+  $fallback = ..."Give a short fallback answer: {$user_message}"
+  when bot say $text
+    return
+  else
+    bot say $fallback
+"""
+
+
 def llm_fn_for(path, version):
     def fn(task, prompt, i):
         t = str(task)
@@ -49,18 +68,20 @@ def llm_fn_for(path, version):
 # "param": ONE shipped rail flow configured twice with different parameters (content safety check input/output $model=...)
 RAILS = {"single": (("in1",), ("out1",)), "double": (("in1", "in2"), ("out1", "out2")), "param": (("in1", "in2"), ("out1", "out2"))}
 _RAILSET = ["single"]
+_PATH = ["free"]
 
 
 def build(version, dialog, exceptions):
     ins, outs = RAILS[_RAILSET[0]]
     if version == "2.x":
-        return rw.v2_world(in_order=ins, out_order=outs, dialog=False, exceptions=exceptions, main=V2_MAIN_LOOKUP)
+        return rw.v2_world(in_order=ins, out_order=outs, dialog=False, exceptions=exceptions, main=(V2_MAIN_RETRY if _PATH[0] == "retry" else V2_MAIN_LOOKUP))
     return rw.v1_world(in_order=ins, out_order=outs, dialog=dialog, exceptions=exceptions, param_rails=("both" if _RAILSET[0] == "param" else False))
 
 
 def explore(task):
     version, dialog, exceptions, path, turns, pairs, kinds = task[:7]
     _RAILSET[0] = task[7] if len(task) > 7 else "single"
+    _PATH[0] = path
     from vf.engines.world import World
     World.action_form = task[8] if len(task) > 8 else "async"
     ins, outs = RAILS[_RAILSET[0]]
@@ -178,13 +199,20 @@ def explore(task):
                 text = ft.text or ""
                 guarded_failed = any(r in failed_sites for r in ins + outs)
                 leaked = [x for x in llm_texts if x and x in text]
+                approved = []
+                if path == "retry" and not any(r in failed_sites for r in ins):
+                    # an LLM text that a (non-faulted) invocation of every output rail approved may be uttered -
+                    # e.g. the fallback message of a flow whose first message was stopped by the failing rail
+                    approved = [x for x in leaked if all(any(a.get("rail") == r and a.get("text") == x and not a.get("fault") for a in ft.actions) for r in outs)]
+                    leaked = [x for x in leaked if x not in approved]
                 if guarded_failed:
                     if leaked:
                         bad("unchecked-llm-text-returned", f"rail action failed ({failed_sites}) but the reply contains the LLM text {leaked[0]!r}: {text!r}")
                     else:
                         ok_replies = {INTERNAL_ERROR, rw.LIB_REFUSAL} | {f"REFUSED-{r}" for r in ins + outs} | {f"EXC:BLOCKED-{r}" for r in ins + outs}
                         evs = [e.get("type") for e in reply_events(ft.reply)] if v2 else []
-                        if text in ok_replies or (v2 and exceptions and any(e.endswith("RailException") for e in evs)):
+                        parts_ok = path == "retry" and all(part in ok_replies or part in approved for part in text.split("\n"))
+                        if text in ok_replies or parts_ok or (v2 and exceptions and any(e.endswith("RailException") for e in evs)):
                             res["faulted_turns_fail_closed"] += 1
                         else:
                             bad("reply-not-refusal-or-internal-error", f"rail action failed ({failed_sites}); reply {text!r} events {evs}")
@@ -199,6 +227,8 @@ def explore(task):
                         bad("next-turn-input-rail-not-run", f"after the failure the next user message {nt.user_text!r} was not checked by the input rail first; rail calls {calls}, reply {nt.text!r}")
                         continue
                     nt_llm = [str(c.get("answer", "")).strip().strip('"') for c in nt.llm_calls if "LLMTEXT-" in str(c.get("answer", ""))]
+                    if path == "retry":
+                        nt_llm = nt_llm[:1]      # the second generated text is the fallback, unused in a fault-free turn
                     if nt_llm:
                         if (outs[0], nt_llm[-1]) not in calls:
                             bad("next-turn-output-rail-not-run", f"next turn generated {nt_llm[-1]!r} but the output rail was not invoked on it; rail calls {calls}, reply {nt.text!r}")
@@ -412,6 +442,7 @@ def tasks(tier):
         out.append(("1.0", True, exc, "llm", turns, pairs, kinds))
         out.append(("1.0", True, exc, "lookup", turns, pairs, kinds))
         out.append(("2.x", False, exc, "free", turns, pairs, kinds))
+        out.append(("2.x", False, exc, "retry", turns, False, ("raise",)))
         # one shipped rail flow configured twice with different parameters (Colang 1.0)
         out.append(("1.0", False, exc, "general", turns, tier == "thorough", ("raise",), "param"))
         if tier == "thorough":
@@ -423,7 +454,8 @@ def tasks(tier):
     # the exception classes an action may raise (the dispatcher has class-specific handlers) and the
     # ways an action can be registered (async / plain sync / sync wrapper returning the coroutine)
     from vf.engines.world import FAULT_CLASSES
-    cls_kinds = tuple("raise:" + c for c in FAULT_CLASSES)
+    # (exceptions without a message, or whose message starts with line breaks, as well)
+    cls_kinds = tuple("raise:" + c for c in FAULT_CLASSES) + tuple("raise-empty:" + c for c in ("ValueError", "TimeoutError", "AssertionError", "KeyError", "Multiline"))
     for exc in (False, True):
         for w in (("1.0", False, exc, "general"), ("1.0", True, exc, "lookup"), ("2.x", False, exc, "free")):
             out.append(w + (turns, False, cls_kinds, "single", "async"))
